@@ -18,5 +18,31 @@ let handle (w : string list) : string =
   | ["rc"; h] ->
     let (r, l) = extract_rc (bytes_of_hex h) in
     "rc=" ^ string_of_int (int_of_z r) ^ " line=" ^ hexs l
+  | "disp" :: n :: f :: recheck :: evs ->
+    (* trace acceptance for the fanout protocol: events LD WD KD C<i> UD c<i> d<i> l<i> s<i> u<i> SP X *)
+    let nn = nat_of_int (int_of_string n) and ff = z_of_int (int_of_string f) and rc = (recheck = "1") in
+    let split_tc e = match String.index_opt e ':' with
+      | Some k -> (String.sub e 0 k, Some (int_of_string (String.sub e (k + 1) (String.length e - k - 1))))
+      | None -> (e, None) in
+    let parse e =
+      let num () = nat_of_int (int_of_string (String.sub e 1 (String.length e - 1))) in
+      match e with
+      | "LD" -> ELockD | "WD" -> EWaitD | "KD" -> EWokenD | "UD" -> EUnlockD | "SP" -> ESpur | "X" -> EExit
+      | _ -> (match e.[0] with
+              | 'C' -> ECreate (num ()) | 'c' -> EConn (num ()) | 'd' -> EDestroy (num ())
+              | 'l' -> ELockW (num ()) | 's' -> ESignal (num ()) | 'u' -> EUnlockW (num ())
+              | _ -> failwith "event") in
+    let rec go s k mx = function
+      | [] -> "ACCEPT events=" ^ string_of_int k ^ " peak=" ^ string_of_int mx ^ " tc=" ^ string_of_int (int_of_z s.tc)
+      | e0 :: r ->
+        let (e, otc) = split_tc e0 in
+        (match step nn ff rc s (parse e) with
+         | Some s' ->
+           (match otc with
+            | Some v when v <> int_of_z s'.tc ->
+              "REJECT at=" ^ string_of_int k ^ " event=" ^ e0 ^ " threadcount observed " ^ string_of_int v ^ " model " ^ string_of_int (int_of_z s'.tc)
+            | _ -> go s' (k + 1) (max mx (int_of_z (inflight s'))) r)
+         | None -> "REJECT at=" ^ string_of_int k ^ " event=" ^ e ^ " tc=" ^ string_of_int (int_of_z s.tc)) in
+    go (init nn) 0 0 evs
   | _ -> "MODEL-BADCASE"
 let () = main_loop handle
